@@ -36,6 +36,23 @@ func init() {
 		}
 		return false
 	}
+	wrap("C01", func(c *core.Ctx) {
+		shareFrom(c, "C10", "R6", func(o *core.Obligation) bool { return has(o, "R4", "/R4/report-node") }, 2, "report destination rules (the SEID-0 answer comes back from where the report went)")
+	})
+	wrap("C02", func(c *core.Ctx) { driverNoValueRejection(c, "R5", []string{"PDR", "FAR"}) })
+	wrap("C03", func(c *core.Ctx) {
+		driverNoValueRejection(c, "R5", []string{"QER", "URR", "BAR"})
+		rspSessionLookup(c, "R5")
+		shareFrom(c, "C15", "R8", func(o *core.Obligation) bool {
+			return has(o, "R2", "/R2/drop-sites", "/R2/stop-arm", "/R2/ticker-stopped-before-drop", "/R2/drop-iff-group-empty", "/R2/del-removes-pair")
+		}, 3, "period-group life cycle")
+	})
+	wrap("C07", func(c *core.Ctx) {
+		shareFrom(c, "C18", "P5", func(o *core.Obligation) bool { return has(o, "R2", "/R2/queue-nonblocking") }, 2, "operations on the packet queues (a blocking one stops the event loop)")
+	})
+	wrap("C16", func(c *core.Ctx) {
+		shareFrom(c, "C02", "R3", func(o *core.Obligation) bool { return has(o, "R5", "/R5/handed-on-args:CreatePDR", "/R5/handed-on-args:UpdatePDR") }, 2, "the PDR IE reaches the driver as the peer sent it")
+	})
 	wrap("C05", func(c *core.Ctx) { rspSessionLookup(c, "R2") })
 	wrap("C08", func(c *core.Ctx) { responseSeidAnywhere(c, "R1") })
 	wrap("C09", func(c *core.Ctx) { txSendArms(c, "R4") })
@@ -412,4 +429,74 @@ func seqThenSent(c *core.Ctx, rule string) {
 		c.Check(rule, fmt.Sprintf("seq-then-sent#%d", i+1), pos, r == nil,
 			"once a usage report got its UR-SEQN, every path of serveUSAReport sends the Session Report Request (a number that is taken and then not sent is a gap the peer can never close)")
 	}
+}
+
+// driverNoValueRejection: before its netlink request a method of the gtp5g driver gives up for IEs it cannot decode, not
+// for values it does not like: an error return guarded by a comparison of a decoded IE value (the non-error result of a
+// go-pfcp accessor) with a constant refuses rules the peer may legally send (rule id 0, an unusual flag word ...).
+func driverNoValueRejection(c *core.Ctx, rule string, kinds []string) {
+	p := c.P
+	n := 0
+	var fromAccessor func(v ssa.Value, d int) bool
+	fromAccessor = func(v ssa.Value, d int) bool {
+		if v == nil || d > 6 {
+			return false
+		}
+		switch x := v.(type) {
+		case *ssa.Extract:
+			if cl, ok := x.Tuple.(*ssa.Call); ok && x.Index == 0 {
+				if f := core.Callee(cl); f != nil && f.Pkg() != nil && strings.HasSuffix(f.Pkg().Path(), "go-pfcp/ie") {
+					// only scalar results: lists of child IEs are tested for emptiness legitimately
+					if b, isB := x.Type().Underlying().(*types.Basic); isB && b.Info()&types.IsNumeric != 0 {
+						return true
+					}
+				}
+			}
+		case *ssa.Convert:
+			return fromAccessor(x.X, d+1)
+		case *ssa.Phi:
+			for _, e := range x.Edges {
+				if fromAccessor(e, d+1) {
+					return true
+				}
+			}
+		}
+		return false
+	}
+	for _, kind := range kinds {
+		for _, verb := range []string{"Create", "Update", "Remove"} {
+			fn := p.SSAFn(p.Method(pkgFwd, "Gtp5g", verb+kind))
+			if fn == nil || fn.Blocks == nil {
+				continue
+			}
+			n++
+			bad := ""
+			pos := fn.Pos()
+			core.Instrs(fn, func(in ssa.Instruction) {
+				r, ok := in.(*ssa.Return)
+				if !ok || len(r.Results) == 0 || bad != "" || core.IsNilConst(r.Results[len(r.Results)-1]) {
+					return
+				}
+				for _, f := range core.FactsAt(r.Block()) {
+					cmp, ok := f.V.(*ssa.BinOp)
+					if !ok {
+						continue
+					}
+					switch cmp.Op {
+					case token.EQL, token.NEQ, token.LSS, token.LEQ, token.GTR, token.GEQ:
+					default:
+						continue
+					}
+					_, kx := cmp.X.(*ssa.Const)
+					_, ky := cmp.Y.(*ssa.Const)
+					if (ky && fromAccessor(cmp.X, 0)) || (kx && fromAccessor(cmp.Y, 0)) {
+						bad, pos = "the error return at "+p.Pos(r.Pos())+" depends on the value of a decoded IE ("+cmp.String()+")", r.Pos()
+					}
+				}
+			})
+			c.Check(rule, "driver-no-value-rejection:"+verb+kind, pos, bad == "",
+				"Gtp5g."+verb+kind+" refuses a rule only when an IE cannot be decoded, never for the value it carries"+map[bool]string{true: "", false: " — " + bad}[bad == ""])
+		}
+	}
+	c.Floor(rule, n, 3*len(kinds), "gtp5g driver rule methods")
 }
